@@ -12,6 +12,7 @@ the request element itself (structure as in C01-B) under the issuer's key, signe
 wanted; a mutant of a signed request that is accepted must equal the pristine request.
 """
 import base64
+import copy
 import random
 import time
 import zlib
@@ -35,14 +36,26 @@ RECEIVERS = {
     "plain": {"want": 0, "endpoints": "full"},
     "want-signed": {"want": 1, "endpoints": "full"},
     "redirect-only": {"want": 0, "endpoints": "redirect-only"},
+    # a stand-alone attribute authority (no idp section at all); it only takes attribute queries
+    "aa-alone-plain": {"want": 0, "endpoints": "full", "kind": "aa"},
+    "aa-alone-want-signed": {"want": 1, "endpoints": "full", "kind": "aa"},
 }
+AA_ALONE_EID = "https://aa.example.org/md"
+AA_ALONE_URL = "https://aa.example.org/attr/soap"
 TYPES = {
     # type: (bindings, parse function name on the IdP, expected class name, service)
     "authn": ([BINDING_HTTP_REDIRECT, BINDING_HTTP_POST], "parse_authn_request", "AuthnRequest"),
     "logout": ([BINDING_HTTP_REDIRECT, BINDING_HTTP_POST, BINDING_SOAP], "parse_logout_request", "LogoutRequest"),
     "attribute_query": ([BINDING_SOAP], "parse_attribute_query", "AttributeQuery"),
     "manage_name_id": ([BINDING_SOAP], "parse_manage_name_id_request", "ManageNameIDRequest"),
+    "authn_query": ([BINDING_SOAP], "parse_authn_query", "AuthnQuery"),
+    # (AuthzDecisionQuery cannot be received at all: soap.py has no parse_soap_enveloped_saml_authz_decision_query, unravel() fails for every
+    #  message - nothing is ever handed over, so the property holds trivially and there is nothing to explore; noted in DESIGN.md)
+    "name_id_mapping": ([BINDING_SOAP], "parse_name_id_mapping_request", "NameIDMappingRequest"),
+    "artifact_resolve": ([BINDING_SOAP], "parse_artifact_resolve", "ArtifactResolve"),
 }
+EXTRA_URLS = {"authn_query": "https://idp.example.org/aq/soap", "authz_decision_query": "https://idp.example.org/pdp/soap",
+              "name_id_mapping": "https://idp.example.org/nim/soap", "artifact_resolve": "https://idp.example.org/ars/soap"}
 
 
 def bshort(b):
@@ -55,6 +68,8 @@ def gen_cases(tier, seed):
         for b in bindings:
             for signed in (0, 1):
                 for rname in sorted(RECEIVERS):
+                    if RECEIVERS[rname].get("kind") == "aa" and typ != "attribute_query":
+                        continue
                     cid = "%s-%s-%s-%s" % (typ, bshort(b), "signed" if signed else "unsigned", rname)
                     cases.append({"id": cid, "sig": [typ, bshort(b), signed, rname], "type": typ, "binding": b, "signed": signed, "receiver": rname,
                                   "deep": tier == "thorough"})
@@ -68,13 +83,31 @@ def setup_worker(ctx):
 def _ents(ctx, rname):
     r = RECEIVERS[rname]
 
+    def build_aa():
+        from saml2_tophat.server import Server
+        from saml2_tophat.config import config_factory
+        k, c = fed.key(0)
+        cnf = {"entityid": AA_ALONE_EID, "key_file": k, "cert_file": c, "xmlsec_binary": env.XMLSEC,
+               "service": {"aa": {"endpoints": {"attribute_service": [(AA_ALONE_URL, BINDING_SOAP)]}, "policy": copy.deepcopy(fed.DEFAULT_POLICY),
+                                  "want_authn_requests_signed": bool(r["want"])}}}
+        spc = fed.sp_conf()
+        sp = fed.make_sp(spc, [fed.metadata_of(cnf)])
+        cnf["metadata"] = {"inline": [fed.metadata_of(spc)]}
+        return sp, Server(config=config_factory("aa", copy.deepcopy(cnf)), stype="aa")
+
     def build():
+        if r.get("kind") == "aa":
+            return build_aa()
         eps = None
         if r["endpoints"] == "redirect-only":
             eps = {"single_sign_on_service": [(fed.SSO_REDIRECT, BINDING_HTTP_REDIRECT)], "single_logout_service": [(fed.SLO_IDP, BINDING_HTTP_REDIRECT)]}
         idc = fed.idp_conf(endpoints=eps, want_authn_requests_signed=bool(r["want"]))
         idc["service"]["aa"] = {"endpoints": {"attribute_service": [(AA_URL, BINDING_SOAP)]}, "policy": fed.DEFAULT_POLICY}
         idc["service"]["idp"]["endpoints"]["manage_name_id_service"] = [(MNI_URL, BINDING_SOAP)]
+        idc["service"]["idp"]["endpoints"]["name_id_mapping_service"] = [(EXTRA_URLS["name_id_mapping"], BINDING_SOAP)]
+        idc["service"]["idp"]["endpoints"]["artifact_resolution_service"] = [(EXTRA_URLS["artifact_resolve"], BINDING_SOAP, 1)]
+        idc["service"]["aq"] = {"endpoints": {"authn_query_service": [(EXTRA_URLS["authn_query"], BINDING_SOAP)]}}
+        idc["service"]["pdp"] = {"endpoints": {"authz_service": [(EXTRA_URLS["authz_decision_query"], BINDING_SOAP)]}}
         spc = fed.sp_conf()
         full_idc = fed.idp_conf(want_authn_requests_signed=bool(r["want"]))
         full_idc["service"]["aa"] = idc["service"]["aa"]
@@ -86,6 +119,8 @@ def _ents(ctx, rname):
 
 
 def own_endpoints(rname, typ, binding):
+    if RECEIVERS[rname].get("kind") == "aa":
+        return [AA_ALONE_URL] if (typ, binding) == ("attribute_query", BINDING_SOAP) else []
     full = RECEIVERS[rname]["endpoints"] == "full"
     if typ == "authn":
         m = {BINDING_HTTP_REDIRECT: [fed.SSO_REDIRECT], BINDING_HTTP_POST: [fed.SSO_POST] if full else []}
@@ -93,6 +128,8 @@ def own_endpoints(rname, typ, binding):
         m = {BINDING_HTTP_REDIRECT: [fed.SLO_IDP], BINDING_HTTP_POST: [fed.SLO_IDP + "/post"] if full else [], BINDING_SOAP: [fed.SLO_IDP + "/soap"] if full else []}
     elif typ == "attribute_query":
         m = {BINDING_SOAP: [AA_URL]}
+    elif typ in EXTRA_URLS:
+        m = {BINDING_SOAP: [EXTRA_URLS[typ]]}
     else:
         m = {BINDING_SOAP: [MNI_URL]}
     return m.get(binding, [])
@@ -101,14 +138,30 @@ def own_endpoints(rname, typ, binding):
 def make_request(sp, typ, binding, signed, rname):
     from saml2_tophat.saml import NameID, NAMEID_FORMAT_PERSISTENT
     nid = NameID(format=NAMEID_FORMAT_PERSISTENT, text="subject-1", sp_name_qualifier=fed.SP_EID, name_qualifier=fed.IDP_EID)
-    eps = own_endpoints("plain", typ, binding)
+    aa = RECEIVERS[rname].get("kind") == "aa"
+    eps = own_endpoints(rname if aa else "plain", typ, binding)
     dest = eps[0]
+    if aa:
+        nid = NameID(format=NAMEID_FORMAT_PERSISTENT, text="subject-1", sp_name_qualifier=fed.SP_EID, name_qualifier=AA_ALONE_EID)
     if typ == "authn":
         rid, req = sp.create_authn_request(dest, binding=BINDING_HTTP_POST, sign=bool(signed))
     elif typ == "logout":
         rid, req = sp.create_logout_request(dest, fed.IDP_EID, name_id=nid, reason="user", sign=bool(signed))
     elif typ == "attribute_query":
         rid, req = sp.create_attribute_query(dest, nid, attribute={"givenName": None}, sign=bool(signed))
+    elif typ == "authn_query":
+        from saml2_tophat.saml import Subject
+        rid, req = sp.create_authn_query(Subject(name_id=nid), destination=dest, sign=bool(signed))
+    elif typ == "authz_decision_query":
+        from saml2_tophat.saml import Subject, Action
+        rid, req = sp.create_authz_decision_query(dest, [Action(text="read", namespace="urn:oasis:names:tc:SAML:1.0:action:rwedc")],
+                                                  resource="https://sp.example.org/resource", subject=Subject(name_id=nid), sign=bool(signed))
+    elif typ == "name_id_mapping":
+        from saml2_tophat.samlp import NameIDPolicy
+        rid, req = sp.create_name_id_mapping_request(NameIDPolicy(format=NAMEID_FORMAT_PERSISTENT, sp_name_qualifier=fed.SP_EID), name_id=nid,
+                                                     destination=dest, sign=bool(signed))
+    elif typ == "artifact_resolve":
+        rid, req = sp.create_artifact_resolve("AAQAAMFbLinlXaCM+FIxiDwGOLAy2T71gbpO7ZhNzAgEANlB90ECfpNEVLg=", dest, "sess-1", sign=bool(signed))
     else:
         from saml2_tophat.samlp import NewID
         rid, req = sp.create_manage_name_id_request(dest, name_id=nid, new_id=NewID(text="new-sp-id"), sign=bool(signed))
@@ -178,7 +231,14 @@ def transport_mutants(enc, binding, rng):
 def call(idp, typ, enc, binding):
     fn = getattr(idp, TYPES[typ][1])
     try:
-        r = fn(enc, binding)
+        r = fn(enc, binding) if typ != "artifact_resolve" else fn(enc)
+        if r is not None and not hasattr(r, "message") and hasattr(r, "c_tag"):
+            # this entry point hands the message object over directly
+            class _R(object):
+                pass
+            w = _R()
+            w.message = r
+            r = w
         return r, None
     except Exception as exc:
         return None, exc
@@ -213,15 +273,20 @@ def run_case(case, ctx):
             if exc is None or isinstance(exc, (sv.SigverError, AssertionError)) or type(exc).__name__ in ("IncorrectlySigned", "OtherError", "NotValid", "MustValueError"):
                 sigs.append([typ, bshort(binding), signed, rname, name])
             if name == "pristine":
+                # the property has no accept direction; a refused valid request is counted, and finalize reports a type whose valid
+                # requests were never handed over as inconclusive (nothing was explored for it)
                 expect_ok = (signed or not want_signed) and bool(own)
                 if expect_ok:
-                    viol.append({"key": "C10/valid-request-refused", "what": desc + ": %r" % (exc,)})
+                    hit("valid_request_refused")
+                    hit("valid_request_refused:%s:%s" % (typ, type(exc).__name__ if exc is not None else "None"))
             return
         hit("returned")
         sigs.append([typ, bshort(binding), signed, rname, name])
         msg = r.message
+        n0 = len(viol)
         if name == "pristine":
             pristine_msg = msg.to_string()
+            hit("valid_request_handed_over:" + typ)
         det = {"mutator": name, "document": (text_or_enc if not encoded else "")[:6000]}
         if type(msg).__name__ != TYPES[typ][2]:
             viol.append({"key": "C10/wrong-request-type-returned", "what": desc + ": returned %s" % type(msg).__name__, "detail": det})
@@ -260,6 +325,12 @@ def run_case(case, ctx):
                 viol.append({"key": "C10/modified-signed-request-accepted/" + fam, "what": desc + ": accepted request differs from the signed one", "detail": det})
             else:
                 hit("accepted_equal_to_signed:" + fam)
+        if typ == "artifact_resolve":
+            # one mechanism: this entry point unwraps and parses, nothing else (known finding); only a wrong type is something different
+            for v in viol[n0:]:
+                if v["key"] != "C10/wrong-request-type-returned":
+                    v["what"] = "[%s] %s" % (v["key"].split("/", 1)[1], v["what"])
+                    v["key"] = "C10/artifact-resolve-handed-over-without-validation"
 
     judge("pristine", "-", xml)
     for name, fam, m in request_mutants(xml, typ, signed, case["deep"]):
@@ -286,4 +357,7 @@ def finalize(cases, results, tier, extras):
         inc.append("no request was ever returned")
     if tot.get("mutator_errors"):
         inc.append("%d mutators failed to apply" % tot["mutator_errors"])
+    for typ in sorted(set(c["type"] for c in cases)):
+        if not tot.get("valid_request_handed_over:" + typ):
+            inc.append("no valid %s request was ever handed over - nothing explored for this type" % typ)
     return {"inconclusive": inc, "coverage": {"types": sorted(TYPES), "receivers": sorted(RECEIVERS)}}
